@@ -77,6 +77,8 @@ def segments_into(prop, seg, fnd, cov, ck, what):
                     last = ops[-1] if ops else {}
                     cr = last.get("crash", {})
                     sig = "%s:%s:%s:%s" % (what, b["op"], cr.get("kind", "-"), facet)
+                    if facet == "shrink_raises_with_tombstones":
+                        sig = facet                # finding F5, wherever it is met
                     fnd.add(sig, "%s segment under %s/%s, event %d: op %s%s: facet %s rejected" %
                             (what, r["hasher"], r["keyform"], b["line"], b["op"],
                              (" with a panic at the %s-th %s callback" % (cr.get("n"), cr.get("kind")))
